@@ -244,7 +244,7 @@ def gen_definition(rng, tzid, allow_inconsistent=False):
     if rng.random() < 0.12:
         tag = tag[:2] + rng.choice("ÖÅÑ日")     # abbreviations are free text
     names = (tag + "ST", tag + "DT") if with_names else (None, None)
-    shape = rng.choice(["fixed", "open", "open", "bounded", "bounded", "explicit", "two-eras", "base+open"])
+    shape = rng.choice(["fixed", "open", "open", "bounded", "bounded", "explicit", "two-eras", "base+open", "rename"])
     obs = []
     meta = {"shape": shape}
     base = {"kind": "STANDARD", "dtstart": rng.choice([[1970, 1, 1, 0, 0, 0], [1970, 1, 1, 0, 0, 0], [1601, 1, 1, 0, 0, 0],
@@ -271,6 +271,33 @@ def gen_definition(rng, tzid, allow_inconsistent=False):
         y0 = rng.randint(1971, 2025)
         obs, m = _dst_pair(rng, std, delta, y0, y0 + rng.randint(0, 5), names, True, explicit=True)
         meta.update(m)
+    elif shape == "rename":
+        # an observance at whose onset the clock does not move: the zone is renamed, or stays on its
+        # summer offset for good (TZOFFSETFROM == TZOFFSETTO, other TZNAME / kind)
+        y0 = rng.randint(1975, 2015)
+        y1 = y0 + rng.randint(1, 6)
+        pair, m = _dst_pair(rng, std, delta, y0, y1, names, True, explicit=True)
+        meta.update(m)
+        new_name = (tag + "NT") if with_names else None
+        if rng.random() < 0.5:
+            # after the last STANDARD onset: standard offset kept, new abbreviation
+            obs = pair + [{"kind": "STANDARD", "dtstart": [y1 + 2, rng.randint(1, 12), rng.randint(1, 28), 0, 0, 0],
+                           "from": std, "to": std, "name": new_name, "rrule": None, "rdates": []}]
+            meta["rename"] = "after-standard"
+        else:
+            # permanent summer time: drop the last STANDARD onset, then a STANDARD observance on the DST offset
+            D, S = pair
+            if S["rdates"]:
+                S["rdates"] = S["rdates"][:-1]
+                last_d = D["rdates"][-1] if D["rdates"] else D["dtstart"]
+            else:
+                # only one year: replace the STANDARD observance by the rename altogether
+                pair = [D]
+                last_d = D["dtstart"]
+            when = datetime(*last_d) + timedelta(days=rng.randint(40, 200))
+            obs = pair + [{"kind": "STANDARD", "dtstart": [when.year, when.month, when.day, 0, 0, 0],
+                           "from": std + delta, "to": std + delta, "name": new_name, "rrule": None, "rdates": []}]
+            meta["rename"] = "permanent-summer"
     else:  # two eras (at most four observances in total)
         if rng.random() < 0.5:
             # (a) a bounded pair, then an open-ended pair with other rules; same standard offset
